@@ -626,6 +626,9 @@ def run_case(camp, seed, tier='quick', prop=None):
         sc = apply_post(sc, post)
     if camp.get('foreign_live'):
         sc['config']['foreign_live'] = True
+    if prop in ('C01', 'C05', 'C06', 'C11', 'C16') and \
+            camp.get('mode', 'plain') == 'plain':
+        sc['config']['m1_crosscheck'] = True
     if camp.get('only_calls'):
         sc['only_calls'] = camp['only_calls']
     out = {'runs': 0, 'stats': {}, 'violations': [], 'invalid': 0,
